@@ -290,6 +290,11 @@ void sqf::fileio::impl_default::add_pbo_mapping(std::filesystem::path p)
         log(logmessage::fileio::PBOAlreadyAdded(p.string()));
         return;
     }
+    if (!std::filesystem::exists(p))
+    { // pbofile would *create* an empty archive at that path; mounting must never write
+        log(logmessage::fileio::FailedToParsePBO(p.string()));
+        return;
+    }
     rvutils::pbo::pbofile pbo(p);
     if (!pbo.good())
     {
